@@ -47,6 +47,12 @@ func modeFor(prop string) (*histMode, error) {
 			oracle: func(h *hist.History, o *hist.Outcome) []hist.Problem {
 				return append(baseOracle(h, o), hist.CheckConvergence(o)...)
 			}}, nil
+	case "C03":
+		return &histMode{flavors: []string{"array", "arraymove", "text", "object", "mixed"}, twin: "nogc",
+			gen: hist.GenConfig{MinClients: 2, MaxClients: 4, MinSteps: 8, MaxSteps: 40, PushOnly: true, Inflight: true},
+			oracle: func(h *hist.History, o *hist.Outcome) []hist.Problem {
+				return append(baseOracle(h, o), hist.CheckConvergence(o)...)
+			}}, nil
 	case "C04":
 		return &histMode{flavors: []string{"counter", "object", "array", "mixed"}, proto: true,
 			gen: hist.GenConfig{MinClients: 2, MaxClients: 5, MinSteps: 6, MaxSteps: 40, Inflight: true, PushOnly: true, Retry: true, Detach: true, Presence: true},
@@ -59,7 +65,7 @@ func modeFor(prop string) (*histMode, error) {
 				}
 				return ps
 			},
-			roracle: hist.CheckDelivery}, nil
+			roracle: func(r *hist.Run) []hist.Problem { return append(hist.CheckDelivery(r), hist.CheckCumulativeDelivery(r)...) }}, nil
 	case "C05":
 		return &histMode{flavors: []string{"counter", "array", "text", "mixed"}, proto: true,
 			gen: hist.GenConfig{MinClients: 2, MaxClients: 4, MinSteps: 6, MaxSteps: 30, Retry: true, Inflight: true},
@@ -75,7 +81,7 @@ func modeFor(prop string) (*histMode, error) {
 				}
 				return append(ps, hist.CheckConvergence(o)...)
 			},
-			roracle: hist.CheckDelivery}, nil
+			roracle: func(r *hist.Run) []hist.Problem { return append(hist.CheckDelivery(r), hist.CheckCumulativeDelivery(r)...) }}, nil
 	case "C06":
 		return &histMode{flavors: all,
 			gen: hist.GenConfig{MinClients: 2, MaxClients: 4, MinSteps: 6, MaxSteps: 30, Inflight: true, Detach: true},
@@ -87,7 +93,8 @@ func modeFor(prop string) (*histMode, error) {
 					}
 				}
 				return append(ps, hist.CheckLog(o)...)
-			}}, nil
+			},
+			roracle: hist.CheckMinVV, proto: true}, nil
 	case "C08":
 		return &histMode{flavors: all,
 			gen: hist.GenConfig{MinClients: 1, MaxClients: 3, MinSteps: 6, MaxSteps: 30, FailUpd: true, Undo: true},
@@ -127,7 +134,13 @@ func runHist(cfg *config) error {
 		return err
 	}
 	defer srv.Stop()
+	srvNoGC, err := sim.Start(cfg.out, sim.Options{SnapshotDisableGC: true})
+	if err != nil {
+		return err
+	}
+	defer srvNoGC.Stop()
 	rn := &hist.Runner{S: srv}
+	rnNoGC := &hist.Runner{S: srvNoGC}
 	res := newResult("hist", cfg.seed)
 	r := rng.New(cfg.seed)
 	seen := distinct{}
@@ -144,7 +157,53 @@ func runHist(cfg *config) error {
 		if mode.roracle != nil && run != nil {
 			ps = append(ps, mode.roracle(run)...)
 		}
+		if mode.twin == "nogc" {
+			// the same history with garbage collection switched off everywhere
+			h2 := *h
+			h2.Pin = true
+			o2 := rnNoGC.Run(ctx, &h2)
+			if o2.Fatal != "" {
+				return o, []hist.Problem{{Kind: "harness-fatal", Detail: o2.Fatal}}
+			}
+			for i := range o.Final {
+				if o.Attached[i] && i < len(o2.Final) && o2.Attached[i] && o.Final[i] != o2.Final[i] {
+					ps = append(ps, hist.Problem{Kind: "gc-changes-content", Step: -1, Detail: fmt.Sprintf("client %d with GC: %s  without GC: %s", i, o.Final[i], o2.Final[i])})
+					break
+				}
+			}
+		}
 		return o, ps
+	}
+	signature := func(small *hist.History, kind string) map[string]any {
+		sig := map[string]any{}
+		moved, asetAfterMove := false, false
+		for _, st := range small.Steps {
+			for _, e := range st.Edits {
+				switch e.K {
+				case "amov", "amovf", "amovl":
+					moved = true
+				case "aset":
+					if moved {
+						asetAfterMove = true
+					}
+				}
+			}
+		}
+		sig["aset_after_move"] = asetAfterMove
+		undo := false
+		for _, st := range small.Steps {
+			if st.Op == "Z" || st.Op == "Y" {
+				undo = true
+			}
+		}
+		sig["undo_needed"] = undo
+		// does the failure need garbage collection at all?
+		h2 := *small
+		h2.Pin = true
+		o2 := rnNoGC.Run(ctx, &h2)
+		p2 := append(baseOracle(&h2, o2), hist.CheckConvergence(o2)...)
+		sig["gc_only"] = o2.Fatal == "" && len(p2) == 0
+		return sig
 	}
 	var protoCases []string
 
@@ -224,7 +283,7 @@ func runHist(cfg *config) error {
 			detail = ps2[0].Detail
 		}
 		res.Violations = append(res.Violations, Violation{Kind: kind, Detail: fmt.Sprintf("history %d (%s, %d clients, %d steps after shrinking): %s", i, g.Flavor, small.N, len(small.Steps), detail),
-			Replay: small})
+			Replay: small, Sig: signature(small, kind)})
 	}
 	res.Nontrivial = len(seen)
 	res.Rule = "random multi-client histories (flavors " + strings.Join(mode.flavors, "/") + ") executed on a real in-process server (memory DB, real RPC stack) with manual clients that follow client.Client step by step; non-trivial = at least 2 clients and 2 updates; distinct = distinct step lists; failing histories are shrunk by delta debugging"
